@@ -179,6 +179,17 @@ def rule_b(ctx):
           loops = [x for x in ast.walk(m.node) if isinstance(x, ast.For) and vn in A.unparse(x.iter)
                    and A.has_call(x, lambda d: d.endswith('.use_spec'))]
           ok = bool(loops)
+          if ok:
+            # ... on EVERY path from the (re)ordering of the list to the store
+            loop_nodes = [k2 for k2 in g.nodes if k2.kind == 'iter' and any(k2.ast is lp for lp in loops)]
+            for dn, val in D.reaching_defs(g, k, vn):
+              if dn is None:
+                continue
+              w = g.can_skip(dn, lambda n_: n_ in loop_nodes, to=k)
+              if w:
+                ok = False
+                why = ('the re-ordered children are stored without being re-bound on the path '
+                       + ' -> '.join(w))
         else:
           def _uses(n_):
             return any(isinstance(x, ast.Call) and isinstance(x.func, ast.Attribute)
